@@ -34,6 +34,11 @@ def _cancelling_pair(draw):
 @st.composite
 def compose_case_s(draw, kinds=gens.WIRINGS_W):
     p = draw(_cancelling_pair()) if kinds is gens.WIRINGS_W and draw(st.integers(0, 15)) == 0 else draw(gens.contract_pair_s(kinds))
+    scheme = draw(st.sampled_from(["plain", "plain", "plain", "plain", "symbols", "prefix"]))
+    if scheme != "plain":
+        # unusual variable names: look-alikes of numbers / well-known symbols, prefixes of one another
+        m = gens.WIRING_SCHEMES[scheme]
+        p = dict(p, c1=gens.rename_contract(p["c1"], m), c2=gens.rename_contract(p["c2"], m))
     outs = p["c1"]["o"] + p["c2"]["o"]
     keep = [v for v in outs if draw(st.integers(0, 5)) == 0]
     return {"c1": p["c1"], "c2": p["c2"], "wiring": p["wiring"], "content": p["content"], "keep": keep,
